@@ -5,7 +5,8 @@ from props.base import *
 PID = "C03"
 RULE = ("exists/for_all/var_exists/var_for_all (and the deprecated aliases project/var_project)/binary_op_with_exists/binary_op_with_for_all/binary_op_nested: every function pair of <=2 "
         "variables x every variable subset (as a list in random order with random repetitions), random operands over 3..8 variables with "
-        "skipped levels and non-canonical operands, random outer tables (all 16 connectives), random trigger predicates with inner or/and "
+        "skipped levels and non-canonical operands, few-node operands over 65..2000 variables with support and quantified variables beyond "
+        "variable 63 / 255, random outer tables (all 16 connectives), random trigger predicates with inner or/and "
         "(lazy and eager table forms). relation: canon(impl)=canon(model) where the model is operate-then-project-one-variable-at-a-time. "
         "non-trivial = non-constant operands, at least one quantified variable in the operand's support... (counted: result >=1 node, operands >=3 nodes, "
         "non-empty variable list). "
@@ -102,6 +103,29 @@ def programs(rng, tier):
             trig = "v" + "".join(rng.choice("01") for _ in range(rng.choice([nv, nv, max(0, nv - 2), nv + 2])))
             inner = OR_T() if rng.random() < 0.5 else AND_T()
             P.add(["nested", partial_table(rng, rng.choice(CONNS)), inner, bdd_sx(a), bdd_sx(b), trig])
+    # many variables: few-node functions over 65..2000 variables whose support reaches beyond variable 63 / 255 (a variable
+    # set kept as a 64-bit mask or an 8-bit index would lose them), quantifying supported and unsupported variables of both kinds
+    for _ in range(150 if tier == "quick" else 4000):
+        nv = rng.choice([65, 66, 70, 100, 128, 129, 200, 257, 300, 1000, 2000])
+        k = rng.randrange(2, 6)
+        sup = sorted(set(rng.sample(range(nv), k)) | {rng.randrange(64, nv)})
+        a = bdd_from_tt(nv, sup, [rng.random() < 0.5 for _ in range(1 << len(sup))])
+        sup_b = sorted(set(rng.sample(sup, rng.randrange(1, len(sup) + 1))) | ({rng.randrange(nv)} if rng.random() < 0.5 else set()))[:5]
+        b = bdd_from_tt(nv, sup_b, [rng.random() < 0.5 for _ in range(1 << len(sup_b))])
+        qs = [x for x in sup if rng.random() < 0.5] + [rng.randrange(nv) for _ in range(rng.randrange(0, 3))]
+        if rng.random() < 0.6:
+            qs.append(max(sup))
+        vs = ["L"] + [str(x) for x in dup_perm(rng, sorted(set(qs)))]
+        kk = rng.random()
+        if kk < 0.3:
+            P.add([rng.choice(["exists", "for_all", "project"]), bdd_sx(a), vs])
+        elif kk < 0.4:
+            P.add([rng.choice(["var_exists", "var_for_all", "var_project"]), bdd_sx(a), str(rng.choice(sup))])
+        elif kk < 0.8:
+            P.add([rng.choice(["bin_exists", "bin_for_all"]), partial_table(rng, rng.choice(CONNS)), bdd_sx(a), bdd_sx(b), vs])
+        else:
+            trig = "v" + "".join("1" if (x in qs) else "0" for x in range(nv))
+            P.add(["nested", partial_table(rng, rng.choice(CONNS)), OR_T() if rng.random() < 0.5 else AND_T(), bdd_sx(a), bdd_sx(b), trig])
     # large operands: outer/inner task caches keyed by pointer pairs, store above 65,536 nodes
     BIG_NV = 20
     for r in range(1 if tier == "quick" else 3):
